@@ -170,7 +170,10 @@ def correspondence(ctx):
                         # a character of a wide alphabet inserted (what a loosened validity pattern may newly admit);
                         # used only when the constructor accepts the text
                         j = rng.randint(0, len(s))
-                        s = s[:j] + rng.choice(list(":_~+-.^") + ["0:", "1:"]) + s[j:]
+                        ins = rng.choice(list(":_~+-.^") + ["0:", "1:", "0:", "00:"])
+                        if len(ins) > 1 and rng.random() < 0.7:
+                            j = 0           # an epoch in front (of a text that may already have one)
+                        s = s[:j] + ins + s[j:]
                     v = rc.version_class(s)
                 except Exception:  # noqa: BLE001
                     continue
